@@ -136,6 +136,12 @@ func (g *Gen) validDI(allowPrimary bool) DI {
 	}
 	di := DI{DT: dt, Fail: -1, Data: g.size()}
 	g.count(fmt.Sprintf("dt:%x", dt))
+	if r.Chance(1, 8) || ((dt == 0x400A || dt == 0x400B) && r.Chance(1, 3)) {
+		// a seekable source handed over in the middle of a larger stream (after a framing header)
+		di.Seekable = pick(r, []string{"bytes", "bytes", "file"})
+		di.Pre = pick(r, []int{0, 1, 16, 512, 4096})
+		g.count("reader:seekable-" + di.Seekable)
+	}
 	// group
 	switch r.Intn(5) {
 	case 0:
@@ -441,6 +447,11 @@ func (g *Gen) nextOp(f *sif.FileImage) *Op {
 			if len(in.ids) > 0 && r.Chance(1, 10) {
 				op.DI.Src = pick(r, in.ids) // copy of an object of the same image, streamed from it
 			}
+			if len(in.ociDigest) > 0 && op.DI.DT != 0x400A && op.DI.DT != 0x400B && op.DI.DT != 0x4004 && r.Chance(1, 5) {
+				// an object of another type annotated with the digest text of an OCI blob of the image
+				op.DI.Opts = append(op.DI.Opts, DIOpt{Kind: "md", MD: MD{Kind: "raw", B: pick(r, in.ociDigest)}})
+				g.count("md:oci-digest-text-on-non-oci-object")
+			}
 		}
 		if in.free == 0 {
 			g.count("reject:full-table")
@@ -479,6 +490,10 @@ func (g *Gen) nextOp(f *sif.FileImage) *Op {
 		switch y := r.Intn(10); {
 		case y < 6:
 			op.MD = MD{Kind: "raw", B: r.Bytes(pick(r, []int{0, 1, 11, 12, 50, 384}))}
+			if len(in.ociDigest) > 0 && r.Chance(1, 4) {
+				op.MD.B = pick(r, in.ociDigest)
+				g.count("setmeta:oci-digest-text")
+			}
 		case y < 7:
 			op.MD = MD{Kind: "nil"}
 		case y < 8:
